@@ -2,12 +2,17 @@
 C18 — Custom headers compose by recency and are restored after a block.
 
 Model   : lean/JRV/Model/Headers.lean
-Theorems: lean/JRV/Properties/C18.lean
+Theorems: lean/JRV/Properties/C18.lean; companions of the extracted facts: lean/JRV/Properties/C18Gen.lean
 Tie     : extracted readonly_headers / merge normalisation / try-finally (tools/extractors/headers.py) +
-          differential correspondence of the header lines a real Transport puts on a recording connection
-          (direct send_content, and real calls / notifications / batches through ServerProxy with nested
-          _additional_headers blocks and exceptions).
-Monitor : the property statement on the recorded header lines and on the stack after each block.
+          differential correspondence of the header lines a real Transport puts on a recording connection:
+          * direct send_content on a fresh Transport (one stack, one send),
+          * sequences of push / pop / send on ONE Transport (every send compared),
+          * programs of one to three block trees run one after the other on ONE real ServerProxy: nested
+            _additional_headers blocks with calls / notifications / batches, left normally or through an exception
+            that is an Exception subclass, a direct BaseException subclass, GeneratorExit or SystemExit.
+Monitor : the property statement, evaluated on the header lines of EVERY request (those of the block trees too: the
+          dictionaries in force at that moment are the constructor's plus those of the blocks the harness is inside
+          of), on the transport's stack around each block, and after each tree.
 """
 import itertools
 import json
@@ -16,7 +21,9 @@ import impl
 import pyval
 
 REQUIRED_THEOREMS = [
-    "C18_recency", "C18_protected", "C18_user_agent", "C18_restore", "C18_block_scope",
+    "C18_recency", "C18_protected", "C18_user_agent", "C18_restore", "C18_restore_body", "C18_exit_kind",
+    "C18_block_scope",
+    # in lean/JRV/Properties/C18Gen.lean (built and audited separately by harness/core.py)
     "C18_gen_readonly", "C18_gen_mergeLowercases", "C18_gen_blockFinally",
 ]
 
@@ -42,6 +49,7 @@ class RecConn(object):
     def putrequest(self, method, url, **kw):
         self.requests.append((method, url))
         self.lines = []
+        self.body = b""
 
     def putheader(self, k, v):
         self.lines.append((k, v))
@@ -92,20 +100,6 @@ class RecConn(object):
         if "id" not in req or req["id"] is None:
             return b""
         return json.dumps({"jsonrpc": "2.0", "id": req["id"], "result": 1}).encode()
-
-
-def make_transport(cfg, conn, log):
-    J = impl.jsonrpclib.jsonrpc
-
-    class T(J.Transport):
-        def make_connection(self, host):
-            return conn
-
-        def send_content(self, connection, request_body):
-            J.Transport.send_content(self, connection, request_body)
-            log.append(list(connection.lines))
-
-    return T(cfg)
 
 
 def enc_dict(d):
@@ -182,52 +176,223 @@ def systematic_stacks():
         yield [a, b, c]
 
 
-def gen_tree(rng, depth=0):
+# ---------------------------------------------------------------------------------------------
+# Leaving a block through an exception: four kinds, numbered as in lean/JRV/Driver/Headers.lean (`r0` … `r3`)
+
+
+class Leave(Exception):
+    """kind 0: an Exception subclass."""
+
+
+class Interrupt(BaseException):
+    """kind 1: derives directly from BaseException, as KeyboardInterrupt does (the harness never raises a real
+    KeyboardInterrupt, so that one coming from the operator is never mistaken for it)."""
+
+
+EXIT_KINDS = [Leave, Interrupt, GeneratorExit, SystemExit]
+KIND_NAMES = ["Exception", "BaseException", "GeneratorExit", "SystemExit"]
+ASSERTION_KIND = 4
+
+
+def copy_stack(st):
+    """A copy deep enough to be unaffected by later pushes/pops and by in-place changes of the dictionaries."""
+    return [dict(h) for h in st]
+
+
+def is_raise(it):
+    return isinstance(it, str) and it.startswith("r")
+
+
+def raise_kind(it):
+    return int(it[1:]) if len(it) > 1 else 0   # a bare "r" (replays written before kinds existed) is kind 0
+
+
+class ProxyRun(object):
+    """One real ServerProxy on a recording connection.  Block trees are run on it one after the other; for every
+    request the harness records the dictionaries in force (its own bookkeeping: the constructor's dictionary plus
+    those of the blocks it is inside of), a copy of the transport's stack, the header lines and the body sent."""
+
+    def __init__(self, cfg, ctor):
+        J = impl.jsonrpclib.jsonrpc
+        self.cfg = cfg
+        self.conn = RecConn()
+        self.requests = []
+        run = self
+
+        class T(J.Transport):
+            def make_connection(self, host):
+                return run.conn
+
+            def send_content(self, connection, request_body):
+                n0 = len(connection.lines)
+                seen = copy_stack(self.additional_headers)
+                extra = [tuple(x) for x in (getattr(self, "_extra_headers", None) or [])]
+                J.Transport.send_content(self, connection, request_body)
+                run.requests.append({
+                    "in_force": copy_stack(run.in_force), "transport_stack": seen, "extra": extra,
+                    "pre": list(connection.lines[:n0]), "lines": list(connection.lines[n0:]),
+                    "body_len": len(connection.body),
+                })
+
+        self.transport = T(cfg)
+        self.proxy = J.ServerProxy("http://localhost:1/", transport=self.transport, headers=ctor, config=cfg)
+        self.base = copy_stack(self.transport.additional_headers)
+        self.in_force = copy_stack(self.base)
+        self.blocks = []
+        self.pending = None
+
+    def _items(self, tree, how):
+        J = impl.jsonrpclib.jsonrpc
+        for it in tree:
+            if it == "c":
+                if how == "call":
+                    self.proxy.m(1)
+                elif how == "notify":
+                    self.proxy._notify.m(1)
+                else:
+                    mc = J.MultiCall(self.proxy)
+                    mc.m(1)
+                    mc._notify.n(2)
+                    mc()
+            elif is_raise(it):
+                self.pending = EXIT_KINDS[raise_kind(it)]()
+                raise self.pending
+            else:
+                before = copy_stack(self.transport.additional_headers)
+                self.in_force.append(dict(it[1]))
+                try:
+                    with self.proxy._additional_headers(it[1]):
+                        self._items(it[2], how)
+                finally:
+                    self.in_force.pop()
+                    self.blocks.append((before, copy_stack(self.transport.additional_headers)))
+
+    def run_tree(self, tree, how):
+        """Runs one tree; returns what was observed, with the monitor hits as (key, detail) pairs."""
+        first_req, first_blk = len(self.requests), len(self.blocks)
+        self.pending = None
+        exit_kind, error, hits = None, None, []
+        try:
+            self._items(tree, how)
+        except BaseException as ex:  # noqa: BLE001 - only the harness's own exception object is absorbed
+            if self.pending is not None and ex is self.pending:
+                exit_kind = EXIT_KINDS.index(type(ex))
+            elif isinstance(ex, AssertionError):
+                exit_kind = ASSERTION_KIND
+                hits.append(("assert", "pop_headers assertion failed: %r" % (ex,)))
+            elif isinstance(ex, Exception):
+                error = type(ex).__name__
+            else:
+                raise  # a KeyboardInterrupt / SystemExit that is not ours
+        final = copy_stack(self.transport.additional_headers)
+        reqs = self.requests[first_req:]
+        for n, rq in enumerate(reqs):
+            m = monitor_lines(rq["lines"], rq["in_force"], rq["extra"], self.cfg, rq["body_len"])
+            if m:
+                hits.append(("recency:" + m[:40], "request %d of the tree, dictionaries in force %r, sent %r: %s"
+                             % (n + 1, rq["in_force"], rq["lines"], m)))
+            got = [k.lower() for k, _ in rq["pre"] + rq["lines"]]
+            if got.count("content-length") != 1 or got.count("content-type") != 1:
+                hits.append(("protected", "protected header count wrong in %r" % (rq["pre"] + rq["lines"],)))
+        for before, after in self.blocks[first_blk:]:
+            if before != after:
+                hits.append(("restore", "headers in force after a block %r differ from those before it %r" % (after, before)))
+                break
+        if final != self.base:
+            hits.append(("restore", "stack after the code %r differs from %r" % (final, self.base)))
+        return {"exit": exit_kind, "error": error, "final": final, "requests": reqs, "hits": hits}
+
+
+def run_program(cfg, ctor, program):
+    """`program`: list of [tree, how], run one after the other on ONE proxy (and one transport)."""
+    pr = ProxyRun(cfg, ctor)
+    return pr, [pr.run_tree(tree, how) for tree, how in program]
+
+
+def gen_block_dict(rng, hot):
+    """Dictionary of a block: sibling and nested blocks of one tree often define the same (hot) name, in any letter
+    case, with different values."""
+    d = gen_dict(rng)
+    if rng.random() < 0.6 and not any(k.lower() == hot for k in d):
+        d[rng.choice(casings(hot))] = rng.choice(VALUES)
+    return d
+
+
+def gen_tree(rng, depth=0, hot=None):
+    if hot is None:
+        hot = rng.choice(NAMES + [UA])
     items = []
     for _ in range(rng.randint(1, 3)):
         r = rng.random()
         if r < 0.45 or depth >= 3:
             items.append("c")
-        elif r < 0.6:
-            items.append("r")
+        elif r < 0.57:
+            items.append("r%d" % rng.randrange(len(EXIT_KINDS)))
         else:
-            items.append(["n", gen_dict(rng), gen_tree(rng, depth + 1)])
+            items.append(["n", gen_block_dict(rng, hot), gen_tree(rng, depth + 1, hot)])
     return items
 
 
-class Leave(Exception):
-    pass
+def systematic_programs(full):
+    """Sibling / nested blocks that define one name (in every pair of letter cases) with different values, and blocks
+    left through each kind of exception followed by more requests on the same proxy.  Yields (ctor, program)."""
+    cs = casings("x-test")
+    hows = ["call", "notify", "batch"]
+    n = 0
+    for c1 in cs:
+        for c2 in cs:
+            for how in (hows if full else [hows[n % 3]]):
+                n += 1
+                # two siblings; three siblings a, b, a; a request after them
+                yield None, [[[["n", {c1: "a"}, ["c"]], ["n", {c2: "b"}, ["c"]]], how]]
+                yield None, [[[["n", {c1: "a"}, ["c"]], ["n", {c2: "b"}, ["c"]], ["n", {c1: "a"}, ["c"]], "c"], how]]
+                # siblings inside an outer block and under a constructor dictionary that define the name too
+                yield {c2: "0"}, [[[["n", {c1: "o"}, [["n", {c2: "a"}, ["c"]], "c", ["n", {c1: "b"}, ["c"]], "c"]], "c"], how]]
+                # the inner value must not survive the inner block
+                yield None, [[[["n", {c1: "a"}, ["c", ["n", {c2: "b"}, ["c"]], "c"]], "c"], how]]
+                # the siblings are in two trees run one after the other on the same proxy
+                yield None, [[[["n", {c1: "a"}, ["c"]]], how], [[["n", {c2: "b"}, ["c"]], "c"], how]]
+    # equal dictionaries at two depths: pop_headers must remove the top one, not the first equal one
+    for how in (hows if full else hows[:1]):
+        yield None, [[[["n", {"X-Test": "1"}, [["n", {"x-other": "2"}, [["n", {"X-Test": "1"}, ["c"]], "c"]], "c"]], "c"], how]]
+        yield {}, [[[["n", {}, [["n", {"x-test": "1"}, [["n", {}, ["c"]], "c"]], "c"]], "c"], how]]
+    for kind in range(len(EXIT_KINDS)):
+        r = "r%d" % kind
+        for how in (hows if full else [hows[kind % 3]]):
+            yield None, [[[["n", {"X-Test": "1"}, ["c", r]]], how], [["c"], how]]
+            yield {"x-test": "0"}, [[[["n", {"X-Test": "1"}, [["n", {"x-other": 2}, ["c", r, "c"]], "c"]]], how],
+                                     [["c", ["n", {"X-TEST": "3"}, ["c"]], "c"], how]]
+            yield None, [[[["n", {"User-Agent": "u"}, [["n", {"Accept": "a"}, [r]]]]], how], [["c"], how]]
 
 
-def run_tree(proxy, transport, tree, how, stacks_after):
-    J = impl.jsonrpclib.jsonrpc
+def program_has_raise(program):
+    return any(is_raise(x) for tree, _ in program for x in flat_items(tree))
+
+
+def flat_items(tree):
     for it in tree:
-        if it == "c":
-            if how == "call":
-                proxy.m(1)
-            elif how == "notify":
-                proxy._notify.m(1)
-            else:
-                mc = J.MultiCall(proxy)
-                mc.m(1)
-                mc._notify.n(2)
-                mc()
-        elif it == "r":
-            raise Leave()
+        if isinstance(it, list):
+            yield it
+            for x in flat_items(it[2]):
+                yield x
         else:
-            before = [dict(h) for h in transport.additional_headers]
-            try:
-                with proxy._additional_headers(it[1]):
-                    run_tree(proxy, transport, it[2], how, stacks_after)
-            finally:
-                stacks_after.append((before, [dict(h) for h in transport.additional_headers]))
+            yield it
+
+
+def program_redefines(ctor, program):
+    names = [k.lower() for k in (ctor or {})]
+    for tree, _ in program:
+        for it in flat_items(tree):
+            if isinstance(it, list):
+                names += [k.lower() for k in it[1]]
+    return len(set(names)) != len(names)
 
 
 def enc_tree(tree):
     parts = []
     for it in tree:
-        if it == "c" or it == "r":
-            parts.append(pyval.enc(it))
+        if isinstance(it, str):
+            parts.append(pyval.enc("r%d" % raise_kind(it) if is_raise(it) else it))
         else:
             parts.append("L3 %s %s %s" % (pyval.enc("n"), enc_dict(it[1]), enc_tree(it[2])))
     return "L%d %s" % (len(parts), " ".join(parts)) if parts else "L0"
@@ -237,16 +402,102 @@ def lines_tree(lines):
     return pyval.enc([[k, v] for k, v in lines], canon=False)
 
 
+def after_fixed(ls):
+    """What follows the two fixed headers among the lines of send_content."""
+    idx = [i for i, (k, _) in enumerate(ls) if k == "Content-Length"]
+    return ls[idx[0] + 1:] if idx else ls
+
+
+# ---------------------------------------------------------------------------------------------
+# Several sends on ONE transport with pushes / pops in between
+
+
+def run_sequence(cfg, ops):
+    """ops: ["push", dict] | ["pop"] | ["extra", [[name, value], …]] | ["send", body] applied to a single J.Transport.
+    Returns the list of sends: the dictionaries in force (the harness's own stack), extra, body, emitted lines, monitor."""
+    J = impl.jsonrpclib.jsonrpc
+    t = J.Transport(cfg)
+    mine, sends, hits = [], [], []
+    for op in ops:
+        if op[0] == "push":
+            d = dict(op[1])
+            mine.append(d)
+            t.push_headers(d)
+        elif op[0] == "pop":
+            if mine:
+                try:
+                    t.pop_headers(mine.pop())
+                except AssertionError as ex:
+                    hits.append(("assert", "pop_headers assertion failed: %r" % (ex,)))
+        elif op[0] == "extra":
+            t._extra_headers = [tuple(x) for x in op[1]]
+        else:
+            conn = RecConn()
+            extra = [tuple(x) for x in (t._extra_headers or [])]
+            t.send_content(conn, op[1])
+            blen = len(op[1].encode("utf-8"))
+            m = monitor_lines(conn.lines, copy_stack(mine), extra, cfg, blen)
+            if m:
+                hits.append(("recency:" + m[:40], "send %d on one transport, dictionaries in force %r, sent %r: %s"
+                             % (len(sends) + 1, mine, conn.lines, m)))
+            sends.append({"stack": copy_stack(mine), "extra": extra, "body": op[1], "blen": blen, "lines": list(conn.lines)})
+    if copy_stack(t.additional_headers) != mine:
+        hits.append(("restore", "transport stack %r after the sequence, pushed and not popped: %r" % (t.additional_headers, mine)))
+    return sends, hits
+
+
+def gen_ops(rng):
+    hot = rng.choice(NAMES + [UA])
+    ops, depth = [], 0
+    for _ in range(rng.randint(4, 10)):
+        r = rng.random()
+        if r < 0.35 and depth < 4:
+            ops.append(["push", gen_block_dict(rng, hot)])
+            depth += 1
+        elif r < 0.55 and depth:
+            ops.append(["pop"])
+            depth -= 1
+        elif r < 0.62:
+            ops.append(["extra", [] if rng.random() < 0.3 else
+                        [[rng.choice(["Authorization", "X-Test", "x-other"]), rng.choice(["Basic abc", "e"])]]])
+        else:
+            ops.append(["send", rng.choice(["", "{}", "é" * rng.randint(1, 4), '{"jsonrpc": "2.0"}'])])
+    ops.append(["send", "{}"])
+    return ops
+
+
+def systematic_sequences():
+    cs = casings("x-test")
+    for c1 in cs:
+        for c2 in cs:
+            yield [["push", {c1: "a"}], ["send", "{}"], ["pop"], ["push", {c2: "b"}], ["send", "{}"], ["pop"], ["send", "{}"]]
+            yield [["push", {c1: "a"}], ["send", "{}"], ["push", {c2: "b"}], ["send", "{}"], ["pop"], ["send", "{}"],
+                   ["pop"], ["send", "{}"]]
+
+
+def hdr_line(cfg, blen, extra, stack):
+    return "hdr L5 %s I%d %s %s %s" % (pyval.enc(cfg.content_type), blen, pyval.enc(cfg.user_agent),
+                                      enc_dict(dict(extra)) if extra else "L0", enc_stack(stack))
+
+
+def make_cfg():
+    return impl.jsonrpclib.config.Config(content_type="application/json-rpc", user_agent="ua/1.0")
+
+
 def run(ctx):
     J = impl.jsonrpclib.jsonrpc
-    cfg = impl.jsonrpclib.config.Config(content_type="application/json-rpc", user_agent="ua/1.0")
+    cfg = make_cfg()
     ctx.rule = ("stacks of header dictionaries (thorough: exhaustive 0-3 single-entry dictionaries over 3 names x 3 casings x "
                 "3 values plus protected names and User-Agent; always: random stacks to depth 4 with non-string values and "
-                "_extra_headers) sent through Transport.send_content on a recording connection; random trees of nested "
-                "_additional_headers blocks with calls / notifications / batches and exceptional exits run through a real "
-                "ServerProxy; distinct_nontrivial = distinct stacks in which some name is defined more than once "
-                "(case-insensitively) or trees with an exceptional exit")
-    lines, impl_out, meta = [], [], []
+                "_extra_headers) sent through Transport.send_content on a recording connection; sequences of push / pop / "
+                "send on one Transport (every send checked); programs of 1-3 trees of nested _additional_headers blocks "
+                "with calls / notifications / batches, left normally or through an Exception, a direct BaseException "
+                "subclass, GeneratorExit or SystemExit, run one after the other on one real ServerProxy (systematic "
+                "sibling / nested redefinitions of one name over every pair of letter cases, plus random trees); "
+                "distinct_nontrivial = distinct stacks in which some name is defined more than once (case-insensitively), "
+                "sequences with a pop between two sends, programs with an exceptional exit or a name defined by more "
+                "than one dictionary")
+    lines, impl_out, by_how = [], [], {}
 
     def one_stack(stack, extra, body):
         t = J.Transport(cfg)
@@ -259,14 +510,48 @@ def run(ctx):
         m = monitor_lines(conn.lines, stack, extra, cfg, blen)
         if m:
             ctx.violate({"stack": stack, "extra": list(extra), "body": body}, m, key=m[:50])
-        lines.append("hdr L5 %s I%d %s %s %s" % (pyval.enc(cfg.content_type), blen, pyval.enc(cfg.user_agent),
-                                                  enc_dict(dict(extra)) if extra else "L0", enc_stack(stack)))
+        lines.append(hdr_line(cfg, blen, extra, stack))
         impl_out.append("ok " + lines_tree(conn.lines))
         names = [k.lower() for d in stack for k in d] + [k.lower() for k, _ in extra]
         collide = len(set(names)) != len(names)
         ctx.count(case_repr={"stack": stack, "extra": list(extra), "sent": conn.lines},
                   nontrivial_key=json.dumps(stack, sort_keys=True, default=repr) if collide else None,
                   kind="stack%d%s" % (len(stack), "/collision" if collide else ""))
+
+    def one_sequence(ops):
+        sends, hits = run_sequence(cfg, ops)
+        for key, detail in hits:
+            ctx.violate({"ops": ops}, detail, key=key)
+        for sd in sends:
+            lines.append(hdr_line(cfg, sd["blen"], sd["extra"], sd["stack"]))
+            impl_out.append("ok " + lines_tree(sd["lines"]))
+        kinds = [op[0] for op in ops]
+        pop_between = "pop" in kinds[kinds.index("send"):] if "send" in kinds else False
+        ctx.count(case_repr={"ops": ops, "sent": [sd["lines"] for sd in sends]},
+                  nontrivial_key=json.dumps(ops, default=repr) if pop_between else None,
+                  kind="seq/%dsends%s" % (min(len(sends), 4), "/pop-between" if pop_between else ""))
+
+    def one_program(ctor, program):
+        pr, results = run_program(cfg, ctor, program)
+        for i, (res, (tree, how)) in enumerate(zip(results, program)):
+            for key, detail in res["hits"]:
+                ctx.violate({"ctor": ctor, "program": program, "failing_tree": i}, detail, key=key)
+            # the model starts every tree from the proxy's base stack: blocks of an earlier tree have all been left
+            lines.append("blocks L3 %s %s %s" % (pyval.enc(cfg.user_agent), enc_stack(pr.base), enc_tree(tree)))
+            if res["error"] is not None:
+                impl_out.append("err %s N" % res["error"])
+            else:
+                per_call = [[[k, v] for k, v in after_fixed(rq["lines"])] for rq in res["requests"]]
+                impl_out.append("ok " + pyval.enc([res["exit"], res["exit"] == ASSERTION_KIND,
+                                                   [[[k, v] for k, v in d.items()] for d in res["final"]], per_call]))
+        exits = [KIND_NAMES[r["exit"]] if r["exit"] is not None and r["exit"] < len(KIND_NAMES) else
+                 ("normal" if r["exit"] is None else "assert") for r in results]
+        interesting = program_has_raise(program) or program_redefines(ctor, program)
+        ctx.count(case_repr={"program": program, "ctor": ctor, "exits": exits},
+                  nontrivial_key=json.dumps([ctor, program], default=repr) if interesting else None,
+                  kind="trees%d/%s" % (len(program), next((e for e in exits if e != "normal"), "normal")))
+        for res, (tree, how) in zip(results, program):
+            by_how[how] = by_how.get(how, 0) + len(res["requests"])
 
     # the stack of the original defect, always
     one_stack([{"x-test": "1"}, {"X-Test": "2"}, {"x-test": "3"}], [], "{}")
@@ -288,46 +573,24 @@ def run(ctx):
         one_stack(stack, extra, body)
 
     # block trees through a real ServerProxy
+    for ctor, program in systematic_programs(full=ctx.thorough):
+        one_program(ctor, program)
     for i in range(ctx.budget(150, 2500)):
-        tree = gen_tree(ctx.rng)
-        how = ctx.rng.choice(["call", "notify", "batch"])
-        ctor = gen_dict(ctx.rng, allow_protected=False) if ctx.rng.random() < 0.5 else None
-        log, stacks_after = [], []
-        conn = RecConn()
-        t = make_transport(cfg, conn, log)
-        proxy = J.ServerProxy("http://localhost:1/", transport=t, headers=ctor, config=cfg)
-        base = [dict(h) for h in t.additional_headers]
-        raised = False
-        try:
-            run_tree(proxy, t, tree, how, stacks_after)
-        except Leave:
-            raised = True
-        except AssertionError as ex:
-            ctx.violate({"tree": tree, "ctor": ctor}, "pop_headers assertion failed: %r" % (ex,), key="assert")
-        final = [dict(h) for h in t.additional_headers]
-        for before, after in stacks_after:
-            if before != after:
-                ctx.violate({"tree": tree, "ctor": ctor, "how": how},
-                            "headers in force after a block %r differ from those before it %r" % (after, before), key="restore")
-                break
-        if final != base:
-            ctx.violate({"tree": tree, "ctor": ctor, "how": how}, "stack after the code %r differs from %r" % (final, base), key="restore")
-        def after_fixed(ls):
-            # what follows the two fixed headers (send_request puts Accept-Encoding before them)
-            idx = [i for i, (k, _) in enumerate(ls) if k == "Content-Length"]
-            return ls[idx[0] + 1:] if idx else ls
-        per_call = [[[k, v] for k, v in after_fixed(ls)] for ls in log]
-        for ls in log:
-            st_now = None  # the stack at the time of the call is not recorded here; protected headers are checked
-            got = [k.lower() for k, _ in ls]
-            if got.count("content-length") != 1 or got.count("content-type") != 1:
-                ctx.violate({"tree": tree, "ctor": ctor, "how": how}, "protected header count wrong in %r" % (ls,), key="protected")
-        lines.append("blocks L3 %s %s %s" % (pyval.enc(cfg.user_agent), enc_stack(base), enc_tree(tree)))
-        impl_out.append("ok " + pyval.enc([raised, False, [[[k, v] for k, v in d.items()] for d in final], per_call]))
-        has_raise = "'r'" in repr(tree)
-        ctx.count(case_repr={"tree": tree, "how": how, "ctor": ctor, "raised": raised},
-                  nontrivial_key=json.dumps(tree, default=repr) if has_raise else None,
-                  kind="tree/%s/%s" % (how, "raise" if raised else "normal"))
+        hot = ctx.rng.choice(NAMES + [UA])
+        ntrees = 1 if ctx.rng.random() < 0.65 else ctx.rng.randint(2, 3)
+        program = [[gen_tree(ctx.rng, hot=hot), ctx.rng.choice(["call", "notify", "batch"])] for _ in range(ntrees)]
+        ctor = None
+        if ctx.rng.random() < 0.5:
+            ctor = gen_dict(ctx.rng, allow_protected=False)
+            if ctx.rng.random() < 0.4 and not any(k.lower() == hot for k in ctor):
+                ctor[ctx.rng.choice(casings(hot))] = ctx.rng.choice(VALUES)
+        one_program(ctor, program)
+
+    # several sends on one transport
+    for ops in systematic_sequences():
+        one_sequence(ops)
+    for _ in range(ctx.budget(150, 2500)):
+        one_sequence(gen_ops(ctx.rng))
 
     outs = ctx.lean(lines)
     unmodelled = 0
@@ -339,14 +602,19 @@ def run(ctx):
             ctx.disagree(ln, io, mo, component=ln.split(" ")[0])
     ctx.traces_validated += len(lines) - unmodelled
     ctx.extra["unmodelled_cases"] = unmodelled
+    ctx.extra["tree_requests_monitored_by_kind"] = dict(sorted(by_how.items()))
     ctx.assumptions.append("header names are ASCII (str.lower == String.toLower); str(value) modelled for str/int/bool/None values")
+    ctx.assumptions.append("exceptions that leave a block: an Exception subclass, a direct BaseException subclass, GeneratorExit "
+                           "and SystemExit raised by the block's own code (asynchronous exceptions delivered between "
+                           "push_headers and the try statement are outside the model)")
 
 
 def replay(payload):
     J = impl.jsonrpclib.jsonrpc
-    cfg = impl.jsonrpclib.config.Config(content_type="application/json-rpc", user_agent="ua/1.0")
+    cfg = make_cfg()
     case = payload.get("case", {})
     print(json.dumps(case, indent=1, default=repr))
+    found = []
     if "stack" in case:
         t = J.Transport(cfg)
         for d in case["stack"]:
@@ -356,21 +624,31 @@ def replay(payload):
         t.send_content(conn, case.get("body", "{}"))
         print("sent:", conn.lines)
         m = monitor_lines(conn.lines, case["stack"], t._extra_headers, cfg, len(case.get("body", "{}").encode("utf-8")))
+        if m:
+            found.append(m)
+    elif "ops" in case:
+        sends, hits = run_sequence(cfg, case["ops"])
+        for n, sd in enumerate(sends):
+            print("send %d: in force %r extra %r sent %r" % (n + 1, sd["stack"], sd["extra"], sd["lines"]))
+        found += [detail for _, detail in hits]
     else:
-        log, stacks_after = [], []
-        conn = RecConn()
-        t = make_transport(cfg, conn, log)
-        proxy = J.ServerProxy("http://localhost:1/", transport=t, headers=case.get("ctor"), config=cfg)
-        base = [dict(h) for h in t.additional_headers]
-        try:
-            run_tree(proxy, t, case["tree"], case.get("how", "call"), stacks_after)
-        except Leave:
-            pass
-        final = [dict(h) for h in t.additional_headers]
-        print("stack before:", base, "after:", final)
-        m = None if final == base else "stack not restored"
-    if m:
-        print("VIOLATION reproduced:", m)
+        program = case.get("program")
+        if program is None:  # replay files written before programs of several trees existed
+            program = [[case["tree"], case.get("how", "call")]]
+        pr, results = run_program(cfg, case.get("ctor"), program)
+        print("stack of the new proxy:", pr.base)
+        for i, res in enumerate(results):
+            print("tree %d (%s): exit=%s stack afterwards=%r" % (
+                i, program[i][1], "normal" if res["exit"] is None else (KIND_NAMES + ["AssertionError"])[res["exit"]],
+                res["final"]))
+            for n, rq in enumerate(res["requests"]):
+                print("  request %d: in force %r transport stack %r sent %r" % (n + 1, rq["in_force"], rq["transport_stack"], rq["lines"]))
+            if res["error"]:
+                print("  unexpected exception:", res["error"])
+            found += ["tree %d: %s" % (i, detail) for _, detail in res["hits"]]
+    if found:
+        for m in found:
+            print("VIOLATION reproduced:", m)
         return 1
     print("no violation")
     return 0
